@@ -380,6 +380,11 @@ impl Ctx {
         }
         let t0 = Instant::now();
         let count = sl.count;
+        if std::env::var("OHMC_PLAN").is_ok() {
+            // planning aid: print the size of every slice without running it
+            eprintln!("[{} plan] {:<70} {:>14}{}", self.prop, sl.name, count, if sl.heavy { "  (heavy: inner loops)" } else { "" });
+            return;
+        }
         let threads = rayon::current_num_threads() as u64;
         let chunk = if sl.heavy { 1 } else { (count / (threads * 64)).clamp(1, 1 << 16) };
         let nchunks = (count + chunk - 1) / chunk.max(1);
@@ -464,6 +469,10 @@ impl Ctx {
             if n != name {
                 return;
             }
+        }
+        if std::env::var("OHMC_PLAN").is_ok() {
+            eprintln!("[{} plan] {:<70} (state-space search, size unknown before running)", self.prop, name);
+            return;
         }
         let t0 = Instant::now();
         let mut loc = Local::new();
